@@ -9,7 +9,7 @@ mod run;
 
 use common::{json, CaseOut, Json, Rng, Session};
 
-use program::{gen_program, gen_script, Ev, Lane, Program, Step};
+use program::{gen_program, gen_script, Ev, Lane, Node, Program, Step};
 use reference::{End, Policy, RefRun};
 use run::{Obs, RunCfg};
 
@@ -29,6 +29,8 @@ fn lane_kind(ev: &Ev) -> &'static str {
         | Ev::Clear { lane, .. }
         | Ev::FinalM { lane, .. } => Lane::Map(*lane).kind(),
         Ev::Command { .. } | Ev::Command2 { .. } | Ev::Cmd2 { .. } => "command",
+        Ev::OnCue | Ev::Cue { .. } => Lane::Dem.kind(),
+        Ev::OnCueKey { .. } | Ev::CueKey { .. } => Lane::DemMap.kind(),
         _ => "none",
     }
 }
@@ -70,7 +72,7 @@ fn class(ev: Option<&Ev>) -> &'static str {
     match ev {
         None => "end",
         Some(e) if e.is_trigger() => e.kind(),
-        Some(Ev::Start | Ev::Stop | Ev::Command { .. } | Ev::Resume { .. }) => "top-level-handler",
+        Some(Ev::Start | Ev::Stop | Ev::Command { .. } | Ev::Resume { .. } | Ev::OnTimer { .. } | Ev::LaneOpened { .. }) => "top-level-handler",
         Some(Ev::FinalV { .. } | Ev::FinalM { .. }) => "final-probe",
         Some(_) => "leaf",
     }
@@ -87,6 +89,27 @@ fn classify(prog: &Program, exp: &RefRun, obs: &Obs) -> (String, String, usize) 
         (None, Some(_)) if exp.failed_at == Some(i) => ("handler-ran-after-fail".into(), "a handler executed after a failure was reached"),
         (None, Some(_)) if o[..i].contains(&Ev::Stop) => ("on-stop-not-last".into(), "a handler executed after on_stop and everything it triggered had completed"),
         (_, Some(y)) if i == 0 && *y != Ev::Start => ("on-start-not-first".into(), "a handler ran before on_start"),
+        // ---- rules of the extension (new signature prefixes) -----------------------------------
+        (x, Some(Ev::OnTimer { .. })) if !matches!(x, Some(Ev::OnTimer { .. })) => (
+            format!("timer/on_timer-not-due/expected={}", class(x)),
+            "on_timer ran where no timer is due: inside the handler that scheduled it (or another handler), before its delay had elapsed, twice, or after the agent stopped",
+        ),
+        (Some(Ev::OnTimer { .. }), y) if !matches!(y, Some(Ev::OnTimer { .. })) => {
+            (format!("timer/on_timer-missing-or-late/observed={}", class(y)), "a scheduled timer event was due but on_timer did not run before the agent went on to later work")
+        }
+        (Some(Ev::OnTimer { .. }), Some(Ev::OnTimer { .. })) => ("timer/on_timer-wrong-id".into(), "on_timer ran with an id other than that of the timer that was due"),
+        (x, Some(Ev::LaneOpened { .. })) if !matches!(x, Some(Ev::LaneOpened { .. })) => (
+            format!("open-lane/on_done-handler-unexpected/expected={}", class(x)),
+            "the handler made by the on_done callback of open_lane ran inside on_start, twice, or out of the order of the requests",
+        ),
+        (Some(Ev::LaneOpened { .. }), y) if !matches!(y, Some(Ev::LaneOpened { .. })) => (
+            format!("open-lane/on_done-handler-missing-or-late/observed={}", class(y)),
+            "the handler made by the on_done callback of open_lane did not run after on_start, before the agent took its first command",
+        ),
+        (Some(x @ Ev::CtxRead { .. }), Some(y @ Ev::CtxRead { .. })) if x.node() == y.node() => (
+            "contextual-function-read-wrong-state".into(),
+            "the function of and_then_contextual read, from the agent it was handed, a value the item did not hold when the first action had completed",
+        ),
         (Some(x), Some(y)) if only_previous_differs(x, y) => {
             (format!("previous-value-wrong/{}/{}", lane_kind(x), x.kind()), "a lifecycle handler received a previous value/entry that is not the one replaced")
         }
@@ -153,6 +176,11 @@ fn run_one(rng: &mut Rng, out: &mut CaseOut, lenient_external_fail: bool, mutati
             out.count("generated-oversize-regenerated");
             continue;
         }
+        // The order of two timers due at the same instant is not documented.
+        if exp.stats.timer_ties > 0 || alt.stats.timer_ties > 0 {
+            out.count("generated-timer-tie-regenerated");
+            continue;
+        }
         generated = Some((prog, script, exp));
         break;
     }
@@ -215,6 +243,24 @@ fn judge(prog: &Program, script: &[Step], cfg: &RunCfg, exp: RefRun, rng: &mut R
         End::Failed => "case-end(expected)/agent-failed",
         End::FailedToStart => "case-end(expected)/failed-to-start(stop-in-on_start)",
     });
+    // ---- evidence for the extension (expected = what the documented semantics execute) -------
+    out.add("ext/program-with-extension-node-kinds", prog.ext as u64);
+    for (kind, n) in &exp.stats.ext_nodes {
+        out.add(&format!("ext/node-executed(expected)/{kind}"), *n);
+    }
+    out.add("ext/and_then_try-function-failed(expected)", exp.stats.try_fn_failed);
+    out.add("ext/option-none-completed(expected)", exp.stats.opt_none);
+    out.add("ext/sequentially-element-failed(expected)", exp.stats.seq_element_failed);
+    out.add("ext/join-operand-failed(expected)", exp.stats.join_operand_failed);
+    out.add("ext/timers-scheduled(expected)", exp.stats.timers_scheduled);
+    out.add("ext/timers-fired(expected)", exp.stats.timers_fired);
+    out.add("ext/timers-still-pending-when-agent-ended(expected)", exp.stats.timers_dropped_at_stop);
+    out.add("ext/demand-cue(expected)", exp.stats.cues);
+    out.add("ext/demand-sync-request(expected)", exp.stats.demand_syncs);
+    out.add("ext/demand-map-cue_key(expected)", exp.stats.cue_keys);
+    out.add("ext/open_lane-on_done-handler(expected)", exp.stats.lanes_opened);
+    out.add("ext/open_lane-request-completed-ok(observed)", obs.lanes_opened.iter().filter(|b| **b).count() as u64);
+    out.add("ext/open_lane-request-completed-with-error(observed)", obs.lanes_opened.iter().filter(|b| !**b).count() as u64);
     out.add("case-with-fail-reached", (exp.stats.fails_reached > 0) as u64);
     out.add("case-with-stop-reached", (exp.stats.stops_reached > 0) as u64);
     out.add("case-with-jitter", (cfg.jitter_per_mille > 0) as u64);
@@ -252,39 +298,84 @@ fn judge(prog: &Program, script: &[Step], cfg: &RunCfg, exp: RefRun, rng: &mut R
         return;
     }
     // Where the documentation can be read two ways the implementation may follow either reading,
-    // consistently over the whole run; the known deviation gets its own signature.
-    for same in [true, false] {
-        for clear in [true, false] {
-            for fatal in [true, false] {
-                let policy = Policy { same_value_set_triggers: same, clear_empty_triggers: clear, external_fail_fatal: fatal, mutation };
-                if policy == (Policy { mutation, ..Policy::DOCUMENTED }) {
-                    continue;
+    // consistently over the whole run; the known deviation gets its own signature. Candidates
+    // are tried in the order of the number of readings that differ from the documented one.
+    let has_closure = prog.any_node(|n| matches!(n, Node::AndThenCtx(..) | Node::AndThenTry(..)));
+    let has_cue_key = prog.any_node(|n| matches!(n, Node::CueKey(_)));
+    let both = [true, false];
+    let mut candidates = vec![];
+    for same in both {
+        for clear in both {
+            for fatal in both {
+                for closure in &both[..if has_closure { 2 } else { 1 }] {
+                    for nested in &both[..if has_cue_key { 2 } else { 1 }] {
+                        candidates.push(Policy {
+                            same_value_set_triggers: same,
+                            clear_empty_triggers: clear,
+                            external_fail_fatal: fatal,
+                            mutation,
+                            closure_after_triggers: *closure,
+                            cue_key_always_nested: *nested,
+                        });
+                    }
                 }
-                let alt = reference::run(prog, script, policy, TRACE_BUDGET * 2);
-                if alt.overflow || alt.trace != obs.trace || !result_matches(&alt, &obs) {
-                    continue;
-                }
-                if !same {
-                    out.count("tolerated/set-to-same-value-does-not-trigger");
-                }
-                if !clear {
-                    out.count("tolerated/clear-of-empty-map-does-not-trigger");
-                }
-                if !fatal && lenient_external_fail {
-                    out.count("tolerated/fail-in-remote-command-handler-not-fatal");
-                } else if !fatal {
-                    // Everything else follows the documentation; only the failure was not fatal.
-                    let at = exp.trace.len();
-                    out.violation(
-                        PROP,
-                        "fail-not-fatal/handler-started-by-remote-command",
-                        "a handler failed (context.fail) while handling a command frame from a remote; the rest of that handler chain was dropped but the agent task carried on handling later events instead of failing",
-                        detail(prog, script, cfg, &exp, &obs, at),
-                    );
-                }
-                return;
             }
         }
+    }
+    let deviations = |p: &Policy| [p.same_value_set_triggers, p.clear_empty_triggers, p.external_fail_fatal, p.closure_after_triggers, p.cue_key_always_nested].iter().filter(|b| !**b).count();
+    candidates.sort_by_key(deviations);
+    let mut tie_seen = false;
+    for policy in candidates {
+        if policy == (Policy { mutation, ..Policy::DOCUMENTED }) {
+            continue;
+        }
+        let alt = reference::run(prog, script, policy, TRACE_BUDGET * 2);
+        tie_seen |= alt.stats.timer_ties > 0;
+        if alt.overflow || alt.stats.timer_ties > 0 {
+            continue;
+        }
+        match alt.stats.tainted_at {
+            // Judged up to the point where the agent carried on with an item that still holds a
+            // change never reported to its handlers (see `Stats::tainted_at`).
+            Some(k) if obs.trace.len() >= k && alt.trace[..k] == obs.trace[..k] => {
+                out.count("unjudged/rest-of-run-after-swallowed-failure-that-lost-the-handlers-of-a-change");
+            }
+            Some(_) => continue,
+            None if alt.trace != obs.trace || !result_matches(&alt, &obs) => continue,
+            None => {}
+        }
+        if !policy.same_value_set_triggers {
+            out.count("tolerated/set-to-same-value-does-not-trigger");
+        }
+        if !policy.clear_empty_triggers {
+            out.count("tolerated/clear-of-empty-map-does-not-trigger");
+        }
+        if !policy.closure_after_triggers {
+            out.count("tolerated/function-of-and_then_contextual-or-try-applied-before-the-handlers-of-the-first-actions-last-change");
+            out.add("observed/change-whose-handlers-never-ran-because-and_then_try-function-failed-first", alt.stats.trigger_dropped_by_failed_try);
+        }
+        if !policy.cue_key_always_nested {
+            out.count("tolerated/on_cue_key-deferred-while-an-earlier-value-is-unwritten");
+            out.add("observed/cue_key-whose-on_cue_key-was-put-off-until-after-the-write(not-nested)", alt.stats.cue_keys_deferred - alt.stats.cue_keys_coalesced.min(alt.stats.cue_keys_deferred));
+            out.add("observed/cue_key-of-a-key-already-queued(coalesced)", alt.stats.cue_keys_coalesced);
+        }
+        if !policy.external_fail_fatal && lenient_external_fail {
+            out.count("tolerated/fail-in-remote-command-handler-not-fatal");
+        } else if !policy.external_fail_fatal {
+            // Everything else follows the documentation; only the failure was not fatal.
+            let at = exp.trace.len();
+            out.violation(
+                PROP,
+                "fail-not-fatal/handler-started-by-remote-command",
+                "a handler failed (context.fail) while handling a command frame from a remote; the rest of that handler chain was dropped but the agent task carried on handling later events instead of failing",
+                detail(prog, script, cfg, &exp, &obs, at),
+            );
+        }
+        return;
+    }
+    if tie_seen {
+        out.inconclusive("two timers due at the same instant under one of the tolerated readings (their order is not documented)");
+        return;
     }
     if exp.trace == obs.trace {
         let sig = match exp.end {
@@ -308,7 +399,7 @@ fn main() {
     let lenient = s.args.extra_u64("lenient-external-fail").unwrap_or(0) == 1;
     s.part(
         "generated-programs",
-        "seeded handler program (event -> tree over set_value/update/remove/clear/command/get_value/get_map/effect/and_then/followed_by/suspend/fail/stop, acyclic over 3 value lanes + a value store, 2 map lanes + a map store, 2 command lanes) interpreted into real boxed EventHandlers on a derived agent run by AgentRouteTask; 1-8 remote frames (commands to the command/value/map lanes and sync requests; settled and same-lane bursts), suspended futures completed one at a time at quiescence, poll jitter; observed trace, task result and final lane states compared with a reference interpreter of the documented semantics; non-trivial when at least one lifecycle handler was triggered from inside another handler; distinct by the sequence of (event kind, enclosing combinator) observed",
+        "seeded handler program (event -> tree over set_value/update/remove/clear/command/get_value/get_map/effect/and_then/followed_by/suspend/fail/stop, acyclic over 3 value lanes + a value store, 2 map lanes + a map store, 2 command lanes; in 3 of 10 programs also and_then_contextual/and_then_try/join/join3/Option/SideEffects/Sequentially/get_parameter/with_parameters/get_agent_uri/schedule_timer_event with on_timer trees/cue on a demand lane/cue_key on a demand-map lane/open_lane in on_start) interpreted into real boxed EventHandlers on a derived agent run by AgentRouteTask; 1-8 remote frames (commands to the command/value/map lanes and sync requests; settled and same-lane bursts), suspended futures completed one at a time at quiescence, the paused clock advanced by 2 ms per quiescence (timer delays 0 or odd), poll jitter; observed trace, task result and final lane states compared with a reference interpreter of the documented semantics; non-trivial when at least one lifecycle handler was triggered from inside another handler; distinct by the sequence of (event kind, enclosing combinator) observed",
         false,
         n,
         |_i, rng, out| run_one(rng, out, lenient, 0),
@@ -327,6 +418,47 @@ fn main() {
             let cfg = RunCfg { cap_in: 4096, lane_in_buf: 4096, lane_out_buf: 4096, jitter_per_mille: 0 };
             let exp = reference::run(&prog, &script, Policy::DOCUMENTED, TRACE_BUDGET);
             judge(&prog, &script, &cfg, exp, rng, out, false, 0);
+        });
+    }
+    // `--witness 2..` (never part of a check): hand-written programs of the extension.
+    if let Some(w @ 2..=9) = s.args.extra_u64("witness") {
+        s.part("witness-extension", "hand-written minimal program", false, 1, move |_i, rng, out| {
+            out.verbose = true;
+            let mut prog = Program::default();
+            prog.n_progs = 1;
+            prog.ext = true;
+            let cmd = program::Input::Cmd { prog: 0, arg: 1 };
+            let mut script = vec![Step::Send(cmd), Step::Settle];
+            match w {
+                // A `stop` reached inside the nested on_cue_key; on_stop cues again.
+                2 | 3 => {
+                    let a = prog.push(program::Node::CueKey(program::Key::Const(0)));
+                    prog.table.insert(program::Event::Command(0), a);
+                    let b = prog.push(program::Node::SetValue(2, program::Expr::Const(1)));
+                    prog.table.insert(program::Event::OnCueKey, b);
+                    let c = prog.push(program::Node::Stop);
+                    prog.table.insert(program::Event::OnEvent(2), c);
+                    let d = prog.push(program::Node::CueKey(program::Key::Const(if w == 2 { 0 } else { 1 })));
+                    prog.table.insert(program::Event::Stop, d);
+                }
+                // and_then_try whose function fails after a change: the change's handlers.
+                4 => {
+                    let a = prog.push(program::Node::SetValue(1, program::Expr::Const(4)));
+                    let b = prog.push(program::Node::Effect);
+                    let t = prog.push(program::Node::AndThenTry(a, 2, b));
+                    prog.link(t, a);
+                    prog.link(t, b);
+                    prog.table.insert(program::Event::Command(0), t);
+                    let e = prog.push(program::Node::Effect);
+                    prog.table.insert(program::Event::OnSet(1), e);
+                    let cmd1 = program::Input::SetV { lane: 1, v: 4 };
+                    script.extend([Step::Send(cmd1), Step::Settle]);
+                }
+                _ => {}
+            }
+            let cfg = RunCfg { cap_in: 4096, lane_in_buf: 4096, lane_out_buf: 4096, jitter_per_mille: 0 };
+            let exp = reference::run(&prog, &script, Policy::DOCUMENTED, TRACE_BUDGET);
+            judge(&prog, &script, &cfg, exp, rng, out, true, 0);
         });
     }
     // `--self-test 1` (never part of a check): the *reference* is given deliberately wrong
